@@ -125,6 +125,9 @@ func (p *pkg) callArgsIn(root ast.Node, recv, fn string) []ast.Expr {
 		if !ok {
 			return true
 		}
+		if id, ok := c.Fun.(*ast.Ident); ok && recv == "" && id.Name == fn && res == nil {
+			res = c.Args
+		}
 		if f, ok := c.Fun.(*ast.SelectorExpr); ok {
 			if id, ok := f.X.(*ast.Ident); ok && id.Name == recv && f.Sel.Name == fn && res == nil {
 				res = c.Args
@@ -151,7 +154,25 @@ func normWS(s string) string {
 	return strings.Join(strings.Fields(s), " ")
 }
 
-func genBech32() {}
+func genBech32() {
+	p := repoPkg("pkg/bech32")
+	b := repoPkg("pkg/bech32/internal/base32")
+	g := newGen("Bech32")
+	g.def("maxStringLength", "Int", p.intConst("maxStringLength"))
+	g.def("checksumLength", "Int", p.intConst("checksumLength"))
+	g.def("separator", "Int", p.intConst("separator"))
+	ca := p.callArgsIn(p.varExpr("charset"), "", "newEncoding")
+	g.def("charset", "List Nat", leanBytes(constant.StringVal(p.eval(ca[0], 0))))
+	g.def("gen", "List Int", p.compositeInts(p.varExpr("gen")))
+	g.raw(translateFunc(p, "isValidHRPChar"))
+	g.raw(translateFunc(b, "EncodedLen"))
+	g.raw(translateFunc(b, "DecodedLen"))
+	g.src(p, "Encode", "Decode", "isValidHRPChar", "validateCase", "firstUpper", "firstLower",
+		"newEncoding", "encoding.encode", "encoding.decode",
+		"bech32CreateChecksum", "bech32Polymod", "bech32HrpExpand", "bech32VerifyChecksum")
+	g.src(b, "Encode", "Decode", "EncodedLen", "DecodedLen")
+	g.write()
+}
 func genBip39()  {}
 func genCurl()   {}
 func genPow()    {}
